@@ -149,7 +149,14 @@ func genReader(r *run.Rand, idx int, thorough, knownRecreate bool) *Case {
 	if thorough {
 		nseg = r.Range(2, 9)
 	}
+	noisy := r.Chance(0.4) // the directory is shared with look-alike files that come and go
 	for s := 0; s < nseg; s++ {
+		if noisy && r.Chance(0.6) {
+			cs.Ops = append(cs.Ops, Op{K: "sib", How: []string{"touch", "rm", "rm", "mv"}[r.Intn(4)], N: r.Intn(6)})
+			if r.Chance(0.5) {
+				cs.Ops = append(cs.Ops, Op{K: "pause", N: pickPause(r)})
+			}
+		}
 		k := r.Intn(10)
 		switch {
 		case k < 3:
